@@ -199,3 +199,61 @@ PROPS["C17"] = {
     "level_note": "Trusted: Lean kernel + Mathlib, axioms propext/Classical.choice/Quot.sound; harness, line protocol and driver glue; the correspondence is sampled "
                   "(random + bounded-exhaustive), not proved for the C++ code. Not covered: NaN costs, copy constructors of Heap/DoubleHeap, beam size 0.",
 }
+
+def _sym_nontrivial(line, verdict):
+    return not any(k in verdict for k in ("undefined", "unsupported", "too-large", "same-point", "diffunsupported"))
+
+PROPS["C04"]["modules"] = ["IbexProofs.Props.C04", "IbexProofs.Props.C04hc4"]
+PROPS["C04"]["level_text"] = ("Kernel-checked: (1) the Lean model HC4.revise of ibex's forward-backward contractor (same node order, sequential updates, aliasing) is contracting and keeps every "
+    "real point of the box whose DAG value lies in the right-hand side - for all scalar DAGs over var const + - * / minus sqr sqrt abs max min sign pow(1,2), any size/sharing (revise_sub, revise_keeps); "
+    "an accepted `hc4` line (real output contains the model box) therefore keeps every feasible point (accepted_hc4_keeps); (2) any finite schedule of sound contracting sub-contractors "
+    "(propagation with any agenda/ratio/impact) is sound and contracting; the hull of contracted slices covering the box (3BCID/ACID, any parameters) keeps every feasible point. "
+    "Run time: every output box is inside its input, every exactly-feasible sample point survives, the real CtcFwdBwd output contains the model box (identical on >99% of cases).")
+
+PROPS["C08"] = {
+    "modules": ["IbexProofs.Props.C08"],
+    "harnesses": ["h_sym"],
+    "workloads": lambda tier, seed: [{"harness": "h_sym", "tag": "deriv", "args": ["c08", seed, 400 if tier == "quick" else 15000]}],
+    "nontrivial": _sym_nontrivial,
+    "rule": "random differentiable (and 25% non-smooth: abs max min sign chi) rational DAGs, scalar and vector valued, with scalar/vector/matrix arguments, applied functions, linear and nonlinear components mixed; "
+            "3 boxes each, optionally after a Jacobian computed on another box; per box: jacobian (3 points), gradient, jacobian of a random subset of rows, single column v, "
+            "Hansen matrix with explicit centre (3 points) and default centre; the exact derivative at the point (forward-mode dual numbers over Q) must lie in the interval entry, "
+            "f(x)-f(x0) must lie in H(x-x0) computed with exact interval arithmetic; non-trivial = differentiable at the point and checked",
+    "assumptions": ["transcendental operators are not generated (no exact oracle); Hansen checks are skipped when the box contains a pole of f (enclosure of f unbounded)",
+                    "variable/parameter split overloads (VarSet) not driven yet"],
+    "trusted": ["expr_io.h dumper"],
+    "technique": "Lean 4 proof (dual-number evaluation = true Frechet derivative for every DAG incl. applied functions; accepted checks imply the true partial derivatives are enclosed / the slope inclusion holds; mean-value theorem: a matrix enclosing the derivatives along Hansen's segments is a slope matrix) + exact point oracle on the C++ results",
+    "level_text": "Kernel-checked: for every DAG (any size, sharing, vector/matrix operators, indexing, applied functions) and every rational point where dual-number evaluation is defined, the real function is defined near the point and its Frechet derivative is the dual gradient (dual_run_correct); hence an accepted gradpt/jacrows/jaccol line means the TRUE partial derivatives at the point are in the interval Jacobian entries, and an accepted hansenpt line means f(x)-f(x0) is in H(x-x0) for the real numbers; hansen_slope: enclosing the partial derivatives on Hansen's staircase segments yields a slope matrix (n-dimensional, by telescoping the mean value theorem).",
+    "level_note": "Trusted: Lean kernel + Mathlib (axioms propext/Classical.choice/Quot.sound); harness/driver glue; the correspondence is sampled at points. Genuine defects found and fixed: Jacobian rows through mis-simplified component functions (5fc0a73f), gradient of x^0 (741fa77e).",
+}
+
+PROPS["C11"] = {
+    "modules": ["IbexProofs.Props.C11"],
+    "harnesses": ["h_sym"],
+    "workloads": lambda tier, seed: [{"harness": "h_sym", "tag": "rewrite", "args": ["c11", seed, 300 if tier == "quick" else 12000]}],
+    "nontrivial": _sym_nontrivial,
+    "rule": "random rational DAGs (scalar/vector/matrix valued, vector and matrix arguments, indexing, transposition, products, shared nodes) transformed by simplify(1), simplify(2), simplify(3) on a copy, "
+            "Function(f,COPY), Expr2DAG, component extraction f[i]; each pair is decided by the verified normal-form checker (identical rational-function normal forms) and at 3 exact rational points "
+            "(same value; set value for thick constants produced by constant folding); non-trivial = inside the decided fragment / defined at the point",
+    "assumptions": ["the normal-form checker decides the rational fragment (+ - * / minus sqr pow(int), structural operators, applied functions); abs max min sign chi floor ceil sqrt and transcendentals only through exact point sampling",
+                    "Expr2Polynom/monomial normal forms and System-level simpl_level are exercised through C13/C04 workloads only"],
+    "trusted": ["expr_io.h dumper of original and transformed expressions"],
+    "technique": "Lean 4 proof (verified equivalence checker: equal rational-function normal forms => equal real value at every point where both are defined, check_sound) run on every (original, transformed) pair + exact rational point evaluation",
+    "level_text": "Kernel-checked check_sound / checkComp_sound: when the normal-form checker accepts a pair (original DAG, transformed DAG) - evaluated through the same generic evaluator, so vectors, matrices, indexing, products and applied functions are covered - the two expressions have the same dimensions and the same real value at EVERY point where both are defined; the pair produced by each real transformation is submitted to it. Outside the rational fragment, and for definedness, exact evaluation at sample points (Alg.rat = real semantics, rat_root_real).",
+    "level_note": "Trusted: Lean kernel + Mathlib (axioms propext/Classical.choice/Quot.sound); dumper/driver glue; pairs are those generated. Genuine defects found and fixed in the simplifier and Expr2DAG (55600f68 chi, 5e54ba7c, 2b18df75, 297b604c, af130b06, 5fc0a73f).",
+}
+
+PROPS["C12"] = {
+    "modules": ["IbexProofs.Props.C12", "IbexProofs.Props.C12nf"],
+    "harnesses": ["h_sym"],
+    "workloads": lambda tier, seed: [{"harness": "h_sym", "tag": "diff", "args": ["c12", seed, 400 if tier == "quick" else 15000]}],
+    "nontrivial": _sym_nontrivial,
+    "rule": "random differentiable rational DAGs (scalar and vector valued, scalar/vector/matrix arguments, applied functions, shared nodes); f.diff() (gradient / Jacobian) and, for scalar f, the second derivative; "
+            "decided by the verified symbolic checker (formal partial derivatives of the normal form vs the normal form of the library's derivative, in the documented layout) and at 4 exact rational points "
+            "(forward-mode dual numbers vs exact value of the derivative expression); non-trivial = decided / differentiable at the point",
+    "assumptions": ["chi, saw, matrix-valued functions raise ExprDiffException in the library (outside the statement)", "transcendental operators: not generated (no exact oracle)"],
+    "trusted": ["expr_io.h dumper"],
+    "technique": "Lean 4 proof (checkDiff_sound: accepted normal forms => the library's expression is the derivative wherever defined; dual numbers = true derivative) + exact point oracle",
+    "level_text": "Kernel-checked: checkDiff_sound - when the verified checker accepts (f, df) then at every real point (where f is defined nearby and df is defined) the entries of df are the partial derivatives of the entries of f in the layout [d f_i / d x_j]; dual_gradient_correct / accepted_derivative_equal - the exact point oracle compares with the TRUE derivative. Every (f, f.diff()) pair generated is submitted to both.",
+    "level_note": "Trusted: Lean kernel + Mathlib (axioms propext/Classical.choice/Quot.sound); dumper/driver glue. Genuine defects found and fixed (e37b7124, 5e54ba7c, 2b18df75).",
+}
